@@ -78,16 +78,31 @@ class C28(Prop):
             cases, summaries, errors = Prop.run_drivers(self, ctx, n, seed, replay)
         finally:
             vlib.build_overlay = orig
-        # directory-level content: whole recordings (several segments; with / without the stream-id box in any order)
-        # served by the real /list and /get handlers. That driver belongs to C29; here only "did the handler panic"
-        # is judged (extra_checks), which is C28's subject.
-        outp = os.path.join(ctx.workdir, "c28_dirs.jsonl")
-        env = {"VERIF_SEED": seed, "VERIF_N": max(60, n // 20), "VERIF_OUT": outp, "VERIF_TIER": ctx.tier, "VERIF_WORK": ctx.workdir}
-        rc, out = vlib.run_driver(ctx.workdir, "internal/playback", "TestVerifC29", env, timeout=900)
+        # directory-level content, served by the real /list and /get handlers (drivers next to C29's, whose
+        # recording generator they use; one go test invocation for both):
+        #  - TestVerifC29: whole valid recordings (several segments; with / without the stream-id box in any order);
+        #    only "did the handler panic" is judged here (extra_checks);
+        #  - TestVerifC29Dirs: recordings in which files were damaged / foreign files were dropped; its cases are
+        #    terms of Check.C28.case (CListDir / CGetDir) and are evaluated with the others.
+        outp = os.path.join(ctx.workdir, "c28_dirs_%d.jsonl" % n)
+        outd = os.path.join(ctx.workdir, "c28_damaged_dirs_%d.jsonl" % n)
+        for pth in (outp, outd):
+            if os.path.exists(pth):
+                os.remove(pth)
+        env = {"VERIF_SEED": seed, "VERIF_N": max(60, n // 20), "VERIF_OUT": outp, "VERIF_TIER": ctx.tier, "VERIF_WORK": ctx.workdir,
+               "VERIF_OUT_DIRS": outd, "VERIF_N_DIRS": max(240, n // 3)}
+        rc, out = vlib.run_driver(ctx.workdir, "internal/playback", "TestVerifC29(Dirs)?", env, timeout=900)
         self.dir_cases = [r for r in vlib.read_jsonl(outp) if "summary" not in r]
         if rc != 0:
-            errors.append("directory driver (TestVerifC29) failed rc=%d:\n%s" % (rc, out[-3000:]))
+            errors.append("directory drivers (TestVerifC29, TestVerifC29Dirs) failed rc=%d:\n%s" % (rc, out[-3000:]))
         summaries.append({"directory_requests": len(self.dir_cases)})
+        for r in vlib.read_jsonl(outd):
+            if "summary" in r:
+                summaries.append(r["summary"])
+            else:
+                r["driver"] = "TestVerifC29Dirs"
+                r["id"] = len(cases)
+                cases.append(r)
         return cases, summaries, errors
 
     def evaluate(self, ctx, cases):
